@@ -197,6 +197,34 @@ pub fn read_two_pending(s: &mut Src, sh: &Shape) {
     forget(r);
 }
 
+/// The same context requested locally and - while that is pending - forwarded by a follower:
+/// the second is a duplicate (dropped); queue and pending map stay consistent, so later reads
+/// are served and nothing panics.
+pub fn read_same_ctx_two_origins(s: &mut Src, sh: &Shape) {
+    let (mut r, g) = mk_raft(s, sh);
+    let term0 = r.term;
+    let commit0 = g.committed;
+    let res = r.step(read_msg(0, 7));
+    assert!(res.is_ok());
+    r.msgs.clear();
+    let res = r.step(read_msg(3, 7));
+    assert!(res.is_ok());
+    assert!(r.pending_read_count() == 1, "a duplicate context must not be queued twice");
+    r.msgs.clear();
+    let res = r.step(hb_resp(2, term0, Some(7)));
+    assert!(res.is_ok());
+    assert!(r.pending_read_count() == 0 && r.read_states.len() == 1 && r.read_states[0].index == commit0);
+    r.msgs.clear();
+    let res = r.step(read_msg(0, 9));
+    assert!(res.is_ok());
+    r.msgs.clear();
+    let res = r.step(hb_resp(2, term0, Some(9)));
+    assert!(res.is_ok());
+    assert!(r.read_states.len() == 2 && r.read_states[1].index == commit0 && r.read_states[1].request_ctx[0] == 9 && r.pending_read_count() == 0);
+    crate::macros::reached_end();
+    forget(r);
+}
+
 /// Duplicate read contexts: A, B, A again while A is pending (the duplicate must be ignored),
 /// both served by one quorum round on B, then a fresh read C is served too (no leftover entry
 /// in the queue without a pending record - that would trip an internal check).
